@@ -332,16 +332,26 @@ func c20Replicated(c *fw.Ctx, round int) {
 			}
 		}(g)
 	}
-	wg.Add(1)
-	go func() {
-		defer wg.Done()
-		for i, b := range payloads {
-			a.Deliver(b)
-			if i == len(payloads)/2 {
-				a.S.Distributor().MergeRemoteState(snapshot, false)
+	// three deliverers merge the same peer payloads concurrently, in different orders (gossip arrives
+	// from several peers at once): merges of one key race with each other
+	for d := 0; d < 3; d++ {
+		wg.Add(1)
+		go func(d int) {
+			defer wg.Done()
+			order := c.SubRng(fmt.Sprintf("c20/repl/d/%d", round), d).Perm(len(payloads))
+			if d == 0 {
+				for i := range order {
+					order[i] = i
+				}
 			}
-		}
-	}()
+			for i, idx := range order {
+				a.Deliver(payloads[idx])
+				if i == len(payloads)/2 {
+					a.S.Distributor().MergeRemoteState(snapshot, false)
+				}
+			}
+		}(d)
+	}
 	wg.Wait()
 	// reference: everything a issued (its broadcasts) + everything it received
 	ref := model.NewLWW()
